@@ -67,6 +67,15 @@ def best_cost(adj, F, start, stop, method, thr):
     return oracle.minimax(adj, start, stop, F)
 
 
+def laid_out(F, layout):
+    """the same grid values in another memory layout (C order, Fortran order as pymatgen's volumetric readers produce, a transposed view)"""
+    if layout == 'F':
+        return np.asfortranarray(F)
+    if layout == 'T':
+        return np.ascontiguousarray(F.transpose(2, 1, 0)).transpose(2, 1, 0)
+    return F.copy()
+
+
 def run_optimal(case):
     import networkx as nx
     from gemdat.volume import FreeEnergyVolume
@@ -74,7 +83,7 @@ def run_optimal(case):
     F = np.array(case['F'], float)
     shape = F.shape
     thr, diag, method = case['threshold'], case['diagonal'], case['method']
-    vol = FreeEnergyVolume(data=F.copy(), lattice=cases.lattice(case['lattice']))
+    vol = FreeEnergyVolume(data=laid_out(F, case.get('layout')), lattice=cases.lattice(case['lattice']))
     adj = oracle.grid_graph(F, thr, diagonal=diag)
     adm = sorted(adj)
     if not adm:
@@ -100,7 +109,7 @@ def run_optimal(case):
             raise Violation('graph-unchanged-by-queries', f'graph had {len(adj)} nodes / {n_edges} edges, after {case.get("pre_queries")} it has {G.number_of_nodes()} / {G.number_of_edges()}')
         res = gcall(vol.optimal_path, F_graph=G, start=start, stop=stop, method=method, allow=(nx.NetworkXNoPath,))
     best = best_cost(adj, F, start, stop, method, thr)
-    labels = [method, 'diagonal' if diag else 'faces-only']
+    labels = [method, 'diagonal' if diag else 'faces-only'] + (['layout-' + case['layout']] if case.get('layout', 'C') != 'C' else [])
     if isinstance(res, Raised):
         if best is not None:
             raise Violation('no-path-only-when-disconnected', f'NetworkXNoPath but an admissible path of cost {best} exists from {start} to {stop}')
@@ -147,7 +156,7 @@ def run_percolate(case):
 
     F = np.array(case['F'], float)
     dims = F.shape
-    vol = FreeEnergyVolume(data=F.copy(), lattice=cases.lattice(case['lattice']))
+    vol = FreeEnergyVolume(data=laid_out(F, case.get('layout')), lattice=cases.lattice(case['lattice']))
     perc = case['percolate']
     pxyz = [c in perc for c in 'xyz']
     adm = [idx for idx in np.ndindex(*dims) if 0 <= F[idx] < THR]
@@ -222,7 +231,7 @@ def run_npaths(case):
     thr, diag, method, route = case['threshold'], case['diagonal'], case['method'], case['route']
     if route == 'vol-default':
         thr, diag = THR, True
-    vol = FreeEnergyVolume(data=F.copy(), lattice=cases.lattice(case['lattice']))
+    vol = FreeEnergyVolume(data=laid_out(F, case.get('layout')), lattice=cases.lattice(case['lattice']))
     adj = oracle.grid_graph(F, thr, diagonal=diag)
     adm = sorted(adj)
     if not adm or len(adm) > 7:
@@ -239,7 +248,7 @@ def run_npaths(case):
         G = gcall(vol.free_energy_graph, max_energy_threshold=thr, diagonal=diag)
         res = gcall(vol.optimal_n_paths, F_graph=G, allow=allow, **kw)
     else:
-        G = gcall(gpath.free_energy_graph, vol if route == 'function-volume' else F.copy(), max_energy_threshold=thr, diagonal=diag)
+        G = gcall(gpath.free_energy_graph, vol if route == 'function-volume' else laid_out(F, case.get('layout')), max_energy_threshold=thr, diagonal=diag)
         if set(map(tuple, G.nodes)) != set(adj):
             raise Violation('graph-nodes', 'node set differs from the admissible voxels')
         one = gcall(gpath.optimal_path, G, start=start, stop=stop, method=method, allow=allow)
@@ -295,7 +304,7 @@ def npaths_cases(draw, tier):
     return {'lattice': draw(gen.lattices(families=['cubic', 'orthorhombic', 'triclinic'], orients=['lower'])), 'F': F.reshape(shape).tolist(),
             'threshold': draw(st.sampled_from([1e7, 1e7, 3.0])), 'diagonal': draw(st.sampled_from([True, True, False])),
             'method': draw(st.sampled_from(METHODS)), 'start': draw(st.integers(0, 6)), 'stop': draw(st.integers(0, 6)),
-            'n_paths': draw(st.integers(1, 4)), 'min_diff': draw(st.sampled_from([0.0, 0.15, 0.15, 0.34, 0.5, 0.9])), 'defaults': draw(st.sampled_from([False, False, True])),
+            'n_paths': draw(st.integers(1, 4)), 'min_diff': draw(st.sampled_from([0.0, 0.15, 0.15, 0.34, 0.5, 0.9])), 'defaults': draw(st.sampled_from([False, False, True])), 'layout': draw(st.sampled_from(['C', 'C', 'F', 'T'])),
             'route': draw(st.sampled_from(['vol-default', 'vol-graph', 'function-array', 'function-volume']))}
 
 
@@ -332,7 +341,7 @@ def optimal_cases(draw, tier):
     return {'lattice': draw(gen.lattices(families=['cubic', 'orthorhombic', 'triclinic'], orients=['lower'])), 'F': draw(st.one_of(grids(), grids(), ring_grids())),
             'threshold': draw(st.sampled_from([1e7, 1e7, 1e20, 3.0, 4.5])), 'diagonal': draw(st.sampled_from([True, True, False])),
             'method': draw(st.sampled_from(METHODS)), 'start': draw(st.integers(0, 124)), 'stop': draw(st.integers(0, 124)),
-            'default_graph': draw(st.sampled_from([False, False, True])), 'other_graph_first': draw(st.booleans()),
+            'default_graph': draw(st.sampled_from([False, False, True])), 'other_graph_first': draw(st.booleans()), 'layout': draw(st.sampled_from(['C', 'C', 'F', 'T'])),
             'pre_queries': draw(st.lists(st.tuples(st.sampled_from(['minmax-energy', 'minmax-energy', 'dijkstra']), st.integers(0, 124), st.integers(0, 124)).map(list), max_size=2))}
 
 
@@ -359,7 +368,7 @@ def percolate_cases(draw, tier):
         peaks = draw(st.permutations([k_island] + others))
         return {'lattice': draw(gen.lattices(families=['cubic'], orients=['lower'])), 'F': F, 'peaks': list(peaks), 'percolate': perc}
     return {'lattice': draw(gen.lattices(families=['cubic', 'orthorhombic', 'triclinic'], orients=['lower'])), 'F': draw(grids(max_side=4)),
-            'peaks': draw(st.lists(st.integers(0, 63), min_size=1, max_size=4)), 'percolate': perc}
+            'peaks': draw(st.lists(st.integers(0, 63), min_size=1, max_size=4)), 'percolate': perc, 'layout': draw(st.sampled_from(['C', 'C', 'F', 'T']))}
 
 
 @st.composite
